@@ -1,8 +1,6 @@
 package rules
 
 import (
-	"go/constant"
-	"go/token"
 	"go/types"
 
 	"golang.org/x/tools/go/ssa"
@@ -14,122 +12,51 @@ import (
 
 func (x *c12) incoming() {
 	c, k, fn := x.c, x.k, x.accept
-	F := newBoolParam(fn, "forceEncryption")
+	in := x.inc()
+	F := in.F
 	c.Check(!F.reassigned(), "R12.3", kit.FuncName(fn)+"/param forceEncryption not re-assigned", F.P.Pos(),
 		"forceEncryption is never written inside Accept or its closures", "forceEncryption is written inside Accept: the configured policy can be overridden")
 
-	// the MSE responder handshake and its crypto_select callback
-	var hs *ssa.Call
-	nHS := 0
-	kit.Instrs(fn, func(ins ssa.Instruction) {
-		if call, ok := ins.(*ssa.Call); ok && kit.CalleeObj(&call.Call) == x.hsIn {
-			hs = call
-			nHS++
-		}
-	})
-	c.Floor("R12.3", "HandshakeIncoming call in Accept", nHS, 1)
-	if nHS != 1 {
-		if nHS > 1 {
-			c.Bad("R12.3", kit.FuncName(fn)+"/single HandshakeIncoming", fn.Pos(), "Accept contains %d HandshakeIncoming calls: the rule is written for one", nHS)
+	// the MSE responder handshake and its crypto_select callback: in Accept or
+	// in a helper that only Accept (transitively) calls
+	c.Floor("R12.3", "HandshakeIncoming call reachable from Accept", in.nHS, 1)
+	if in.nHS != 1 {
+		if in.nHS > 1 {
+			c.Bad("R12.3", kit.FuncName(fn)+"/single HandshakeIncoming", fn.Pos(), "the module contains %d HandshakeIncoming calls: the rule is written for one", in.nHS)
 		}
 		return
 	}
-	getSKey, _ := argOf(&hs.Call, 1).(*ssa.Parameter)
-	mc, _ := argOf(&hs.Call, 2).(*ssa.MakeClosure)
-	if getSKey == nil || mc == nil {
-		panic(kit.AnchorError{Msg: "Accept: HandshakeIncoming is not called with the getSKey parameter and a closure literal"})
+	hs, cb := in.hs, in.cb
+	if in.hsSite == nil {
+		c.Bad("R12.3", kit.FuncName(fn)+"/HandshakeIncoming runs inside Accept", posOf(hs), "the MSE responder handshake in %s is not executed by btconn.Accept or a helper called only from it: its crypto_select callback is not tied to forceEncryption", kit.FuncName(in.hsFn))
+		return
 	}
-	cb := mc.Fn.(*ssa.Function)
 	// the closure is used for nothing else
 	onlyHS := true
-	for _, r := range *mc.Referrers() {
-		if _, dbg := r.(*ssa.DebugRef); !dbg && r != ssa.Instruction(hs) {
-			onlyHS = false
+	if in.mc != nil {
+		for _, r := range *in.mc.Referrers() {
+			if _, dbg := r.(*ssa.DebugRef); !dbg && r != ssa.Instruction(hs) {
+				onlyHS = false
+			}
 		}
 	}
 	c.Check(onlyHS, "R12.3", k.key(fn, "crypto_select closure only passed to HandshakeIncoming"), posOf(hs),
 		"the crypto_select closure is used only as the argument of HandshakeIncoming",
-		"the crypto_select closure is also used elsewhere: 'isEncrypted implies an MSE handshake ran' no longer follows")
+		"the crypto_select closure is also used elsewhere: 'the callback returned RC4 implies an MSE handshake ran' no longer follows")
 
-	// isEncrypted: the bool local of Accept (other than the spilled
-	// forceEncryption) that the callback assigns
-	var enc *ssa.Alloc
-	for _, f := range kit.WithAnon(cb) {
-		kit.Instrs(f, func(ins ssa.Instruction) {
-			st, ok := ins.(*ssa.Store)
-			if !ok {
-				return
-			}
-			a, ok := cellRoot(st.Addr).(*ssa.Alloc)
-			if !ok || a.Parent() != fn || a == F.Cell {
-				return
-			}
-			if b, isB := st.Val.Type().Underlying().(*types.Basic); !isB || b.Kind() != types.Bool {
-				return
-			}
-			if enc != nil && enc != a {
-				panic(kit.AnchorError{Msg: "Accept: the crypto_select callback sets two bool locals"})
-			}
-			enc = a
-		})
-	}
-	if enc == nil {
-		panic(kit.AnchorError{Msg: "Accept: no bool local assigned by the crypto_select callback (isEncrypted)"})
-	}
-	isEnc := func(e *kit.Expr) bool { return derefOfCell(e, enc) }
-
-	// calls after which isEncrypted may have changed: those that can reach the callback
-	reachCB := map[ssa.Instruction]bool{}
-	kit.Instrs(fn, func(ins ssa.Instruction) {
-		ci, ok := ins.(*ssa.Call)
-		if !ok {
-			return
-		}
-		if _, isB := ci.Call.Value.(*ssa.Builtin); isB {
-			return
-		}
-		callees := c.Callees(ci)
-		if len(callees) == 0 {
-			reachCB[ins] = true // unresolved dynamic call
-			return
-		}
-		r := c.Reach(callees, true, nil)
-		for _, f := range kit.WithAnon(cb) {
-			if r[f] {
-				reachCB[ins] = true
-			}
-		}
-	})
-	encKill := func(ins ssa.Instruction) bool {
-		if st, ok := ins.(*ssa.Store); ok && st.Addr == ssa.Value(enc) {
-			return true
-		}
-		return reachCB[ins]
-	}
-	gGen := func(a kit.Atom) bool { return a.IsFalse(F.is) || a.IsTrue(isEnc) }
-	encOK := &kit.Flow{P: c.Prog, Fn: fn, Edge: gGen}
-	encOK.Instr = func(ins ssa.Instruction, in bool) bool {
-		if in && encKill(ins) {
-			// a store of constant true keeps the fact; anything else drops it
-			if st, ok := ins.(*ssa.Store); ok && kit.Canon(st.Val).IsConstBool(true) {
-				return true
-			}
-			return false
-		}
-		return in
-	}
-	encOK.Solve()
+	// G: forceEncryption == false, or the callback ran and returned mse.RC4
+	cs := in.safety(fn)
+	encOK := cs.G
 
 	// (a) success return
 	ef := newErrFacts(c, fn)
 	errIdx := fn.Signature.Results().Len() - 1
 	succ := ef.successReturns(errIdx)
-	cs := &connSafety{x: x, fn: fn, G: encOK, gGen: gGen, gKill: encKill, d: map[*ssa.Alloc]*kit.Flow{}, busy: map[*ssa.Alloc]bool{}}
-	hsNotYet := c.Pending(fn, func(ins ssa.Instruction) bool { return ins == ssa.Instruction(hs) }, func(ssa.Instruction) bool { return false })
+	hsNotYet := notYetExecuted(c, fn, in.hsSite)
 	for _, r := range succ {
 		key := k.key(fn, "return with possibly-nil error")
 		if !encOK.Before(r) {
-			c.Bad("R12.3", key, posOf(r), "Accept may return a nil error on a path where neither forceEncryption==false nor isEncrypted==true is established: a plaintext incoming connection is accepted although encryption is forced")
+			c.Bad("R12.3", key, posOf(r), "Accept may return a nil error on a path where neither forceEncryption==false nor 'the negotiated cipher is mse.RC4' (a flag set only where RC4 is selected, or a test of the selected cipher against mse.RC4) is established: an unencrypted incoming connection is accepted although encryption is forced")
 			continue
 		}
 		// once the MSE handshake ran, the connection handed out is the wrapper
@@ -160,7 +87,7 @@ func (x *c12) incoming() {
 		}
 		walk(r.Results[0], r, map[ssa.Value]bool{})
 		c.Check(okConn, "R12.3", key, posOf(r),
-			"nil error only under forceEncryption==false or isEncrypted==true; after the MSE handshake the returned connection is the MSE wrapper",
+			"nil error only under forceEncryption==false or established 'negotiated cipher is mse.RC4'; after the MSE handshake the returned connection is the MSE wrapper",
 			"after the MSE handshake Accept may hand out "+why+" instead of the MSE wrapper: the negotiated cipher would not be applied")
 	}
 	c.Floor("R12.3", "returns of Accept whose error may be nil", len(succ), 1)
@@ -172,105 +99,63 @@ func (x *c12) incoming() {
 	for _, s := range sinks {
 		key := k.key(fn, "conn write: "+s.What)
 		if cs.safe(s.Val, s.Ins, nil) {
-			c.OK("R12.3", key, posOf(s.Ins), "write on %s only under forceEncryption==false or isEncrypted==true", cs.describe(s.Val))
+			c.OK("R12.3", key, posOf(s.Ins), "write on %s only under forceEncryption==false or established 'negotiated cipher is mse.RC4'", cs.describe(s.Val))
 		} else {
-			c.Bad("R12.3", key, posOf(s.Ins), "write on %s is not dominated by forceEncryption==false or isEncrypted==true: our handshake (info-hash, peer id) is sent in plaintext although encryption is forced", cs.describe(s.Val))
+			c.Bad("R12.3", key, posOf(s.Ins), "write on %s is not dominated by forceEncryption==false or by evidence that the negotiated cipher is mse.RC4: our handshake (info-hash, peer id) is sent unencrypted although encryption is forced", cs.describe(s.Val))
 		}
 	}
 	c.Floor("R12.3", "writes on the connection in Accept (handshake reply)", len(sinks), 1)
 	cs.closureConnWrites("R12.3")
 
-	// (b) who sets isEncrypted, and to what
-	c.Check(!cellEscapes(fn, enc), "R12.3", kit.FuncName(fn)+"/isEncrypted address not taken", enc.Pos(),
-		"isEncrypted is only loaded, stored and captured by the callback", "the address of isEncrypted escapes: its writers cannot be enumerated")
-	nStores := 0
-	// a store `isEncrypted = (ret == mse.RC4)` of the very value the
-	// callback returns is as good as the constant form
-	isRetEqRC4 := func(f *ssa.Function, v ssa.Value) bool {
-		e := kit.Canon(v)
-		if e.Kind != "binop" || e.Op != token.EQL {
-			return false
+	// (b) bool locals the callback writes ("isEncrypted"-style flags): every
+	// store is judged where it is; a flag that does not qualify is no evidence
+	// above, here the reason is reported
+	var flags []*ssa.Alloc
+	seenFlag := map[*ssa.Alloc]bool{}
+	for _, f := range kit.WithAnon(cb) {
+		kit.Instrs(f, func(ins ssa.Instruction) {
+			st, ok := ins.(*ssa.Store)
+			if !ok {
+				return
+			}
+			a, ok := cellRoot(st.Addr).(*ssa.Alloc)
+			if !ok || fnIn(a.Parent(), cb) || seenFlag[a] {
+				return
+			}
+			if b, isB := st.Val.Type().Underlying().(*types.Basic); !isB || b.Kind() != types.Bool {
+				return
+			}
+			for _, bp := range in.aliases(a.Parent()) {
+				if bp.Cell == a {
+					return
+				}
+			}
+			seenFlag[a] = true
+			flags = append(flags, a)
+		})
+	}
+	for _, a := range flags {
+		name := a.Comment
+		if name == "" {
+			name = "flag"
 		}
-		l, r := e.Args[0], e.Args[1]
-		if z, ok := l.IntConst(); ok && z == x.rc4Bit {
-			l, r = r, l
-		}
-		if z, ok := r.IntConst(); !ok || z != x.rc4Bit {
-			return false
-		}
-		rets := returnsOf(f)
-		for _, rt := range rets {
-			if len(rt.Results) != 1 || rt.Results[0] != l.Strip().V {
-				return false
+		c.Check(!cellEscapes(a.Parent(), a), "R12.3", kit.FuncName(a.Parent())+"/"+name+" address not taken", a.Pos(),
+			name+" is only loaded, stored and captured by the callback", "the address of "+name+" escapes: its writers cannot be enumerated")
+		for _, fs := range in.flagCellStores(a) {
+			key := k.key(fs.S.Fn, "store "+name)
+			switch {
+			case !fs.OK:
+				c.Bad("R12.3", key, posOf(fs.S.St), "%s (written by the crypto_select callback, read as 'encrypted') is %s", name, fs.Why)
+			case fs.Kind == "false":
+				c.Present("R12.3", key, posOf(fs.S.St), "%s %s", name, fs.Why)
+			default:
+				c.OK("R12.3", key, posOf(fs.S.St), "%s %s", name, fs.Why)
 			}
 		}
-		return len(rets) > 0
-	}
-	setsTrue := func(ins ssa.Instruction) bool {
-		st, ok := ins.(*ssa.Store)
-		if !ok || cellRoot(st.Addr) != ssa.Value(enc) {
-			return false
-		}
-		return !kit.Canon(st.Val).IsConstBool(false) && !isRetEqRC4(ins.Parent(), st.Val)
-	}
-	notSet := c.Pending(cb, setsTrue, func(ssa.Instruction) bool { return false })
-	for _, s := range cellStores(fn, enc) {
-		nStores++
-		key := k.key(s.Fn, "store isEncrypted")
-		e := kit.Canon(s.St.Val)
-		switch {
-		case s.Fn == fn && e.IsConstBool(false):
-			c.Present("R12.3", key, posOf(s.St), "isEncrypted initialised to false in Accept")
-		case s.Fn == fn:
-			c.Bad("R12.3", key, posOf(s.St), "isEncrypted is assigned %s in Accept itself: only the crypto_select callback may set it", e)
-		case s.Fn != cb:
-			c.Bad("R12.3", key, posOf(s.St), "isEncrypted is assigned in %s, not in the crypto_select callback", kit.FuncName(s.Fn))
-		case isRetEqRC4(cb, s.St.Val):
-			c.OK("R12.3", key, posOf(s.St), "isEncrypted assigned (selected == mse.RC4) about the value the callback returns")
-		case !e.IsConstBool(true) && !e.IsConstBool(false):
-			c.Bad("R12.3", key, posOf(s.St), "isEncrypted is assigned the non-constant %s", e)
-		default:
-			c.Present("R12.3", key, posOf(s.St), "isEncrypted assigned a constant in the crypto_select callback")
-		}
-	}
-	c.Floor("R12.3", "stores to isEncrypted (init false, callback true)", nStores, 2)
-	nRet := 0
-	for _, r := range returnsOf(cb) {
-		if len(r.Results) != 1 {
-			continue
-		}
-		for _, src := range boolSources(r.Results[0]) {
-			at := src.At
-			if at == nil {
-				at = r
-			}
-			if notSet.Before(at) {
-				continue // isEncrypted untouched on this path
-			}
-			nRet++
-			key := k.key(cb, "selection after isEncrypted=true")
-			kv, ok := src.V.(*ssa.Const)
-			val := int64(-1)
-			if ok && kv.Value != nil && kv.Value.Kind() == constant.Int {
-				val, _ = constant.Int64Val(kv.Value)
-			}
-			c.Check(val == x.rc4Bit, "R12.3", key, posOf(at),
-				"on the path that sets isEncrypted the callback returns exactly mse.RC4",
-				"on a path that sets isEncrypted=true the callback may return "+kit.Canon(src.V).String()+" instead of mse.RC4: a plaintext stream would count as encrypted")
-		}
-	}
-	eqForm := false
-	for _, s := range cellStores(fn, enc) {
-		if s.Fn == cb && isRetEqRC4(cb, s.St.Val) {
-			eqForm = true
-		}
-	}
-	if !eqForm {
-		c.Floor("R12.3", "callback return values on paths that set isEncrypted", nRet, 1)
 	}
 
-	// (c) PlainText is selected only when not forced
-	notFcb := c.AtomFlow(cb, func(a kit.Atom) bool { return a.IsFalse(F.is) }, nil)
+	// (c) PlainText is selected only when not forced (the selection may be
+	// computed by a helper such as selectCipher(provided, forceEncryption))
 	nSel := 0
 	for _, r := range returnsOf(cb) {
 		if len(r.Results) != 1 {
@@ -278,7 +163,7 @@ func (x *c12) incoming() {
 		}
 		nSel++
 		key := k.key(cb, "selected method")
-		if bitOnlyUnder(cb, r.Results[0], x.plainBit, r, notFcb, nil) {
+		if in.plainOnlyUnderNotF(cb, r.Results[0], r, nil, 3) {
 			c.OK("R12.3", key, posOf(r), "the callback's result contains mse.PlainText only where forceEncryption==false")
 		} else {
 			c.Bad("R12.3", key, posOf(r), "the crypto_select callback may return a value containing mse.PlainText while forceEncryption is true: a forced-encryption listener negotiates a plaintext stream")
@@ -289,7 +174,7 @@ func (x *c12) incoming() {
 	// (d) the design listed "forceEncryption && getSKey == nil panics before any
 	// I/O" here. It is not a necessary condition of the property: without the
 	// panic a forced listener with no key still rejects every connection through
-	// the isEncrypted test (checked above), so the sub-rule would fire on an edit
+	// the RC4 evidence test (checked above), so the sub-rule would fire on an edit
 	// that leaves the behaviour intact. Dropped (see DESIGN.md, C12).
 }
 
@@ -490,58 +375,24 @@ func (x *c12) cipherRecorded() {
 	}
 
 	// Accept's cipher result <- the value the crypto_select callback returns
+	// (through a local the callback sets, possibly via a helper's result)
 	{
 		fn := x.accept
+		in := x.inc()
 		ef := newErrFacts(c, fn)
 		succ := ef.successReturns(fn.Signature.Results().Len() - 1)
-		nOK := 0
 		for _, r := range succ {
 			key := k.key(fn, "cipher result")
-			u, _ := r.Results[1].(*ssa.UnOp)
-			var cell *ssa.Alloc
-			if u != nil {
-				cell, _ = u.X.(*ssa.Alloc)
-			}
-			if cell == nil {
-				c.Bad("R12.5", key, posOf(r), "Accept's cipher result %s is not the local set by the crypto_select callback", kit.Canon(r.Results[1]))
-				continue
-			}
-			ok := !cellEscapes(fn, cell)
-			why := "address of the cipher local escapes"
-			stores := cellStores(fn, cell)
-			if len(stores) == 0 {
-				ok, why = false, "the cipher local is never assigned"
-			}
-			for _, s := range stores {
-				if s.Fn == fn || s.Fn.Parent() != fn {
-					ok, why = false, "the cipher local is assigned outside the crypto_select callback"
-					continue
-				}
-				// in the callback: every return returns the value stored last
-				for _, cr := range returnsOf(s.Fn) {
-					if len(cr.Results) != 1 {
-						ok, why = false, "callback shape"
-						continue
-					}
-					ret := cr.Results[0]
-					fl := &kit.Flow{P: c.Prog, Fn: s.Fn}
-					fl.Instr = func(ins ssa.Instruction, in bool) bool {
-						if st, isSt := ins.(*ssa.Store); isSt && cellRoot(st.Addr) == ssa.Value(cell) {
-							return st.Val == ret
-						}
-						return in
-					}
-					if !fl.Solve().Before(cr) {
-						ok, why = false, "the callback can return a method other than the one it recorded in cipher"
-					}
-				}
-			}
+			ok := in.hs != nil && in.cb != nil && in.hsSite != nil && in.selOK(r.Results[1])
 			if ok {
-				nOK++
+				// and it is not vacuous: whenever the MSE handshake ran on the
+				// path, the result carries the callback's value
+				hsNotYet := notYetExecuted(c, fn, in.hsSite)
+				ok = in.selLinked(r.Results[1], r, func(at ssa.Instruction) bool { return at.Parent() == fn && hsNotYet.Before(at) }, map[ssa.Value]bool{})
 			}
 			c.Check(ok, "R12.5", key, posOf(r),
-				"Accept's cipher result is the local that the crypto_select callback sets to exactly the value it returns",
-				"Accept's cipher result is not the selected method: "+why)
+				"Accept's cipher result is zero or exactly the value the crypto_select callback returned (a local the callback sets once to what it returns)",
+				"Accept's cipher result "+kit.Canon(r.Results[1]).String()+" is not the selected method: it is not (only) a copy of the value the crypto_select callback returns, or it is not assigned on a path on which the MSE handshake ran")
 		}
 		c.Floor("R12.5", "success returns of Accept (cipher)", len(succ), 1)
 	}
